@@ -28,6 +28,13 @@ class StrRaises(BaseException):
     __repr__ = BaseException.__repr__
 
 
+class Falsy(Exception):
+    """an exception instance that is falsy (it carries an empty list of problems)"""
+
+    def __len__(self):
+        return 0
+
+
 def _s(e):
     try:
         return str(e)[:80]
@@ -37,7 +44,7 @@ def _s(e):
 
 EXCS = {"ValueError": lambda: ValueError("boom"), "UserKeyError": lambda: UserKeyError("k"), "KeyboardInterrupt": lambda: KeyboardInterrupt(),
         "SystemExit": lambda: SystemExit(3), "UserBase": lambda: UserBase("b"), "GeneratorExit": lambda: GeneratorExit(),
-        "StrRaises": lambda: StrRaises()}
+        "StrRaises": lambda: StrRaises(), "KeyError": lambda: KeyError("missing"), "Falsy": lambda: Falsy()}
 
 
 def reach(spec, fname, seen=None):
@@ -161,7 +168,7 @@ def programs(tier):
 
 def cases(tier):
     out = []
-    excs = ["ValueError", "KeyboardInterrupt", "UserBase", "StrRaises"] if tier == "quick" else list(EXCS)
+    excs = ["ValueError", "KeyboardInterrupt", "UserBase", "StrRaises", "KeyError", "Falsy"] if tier == "quick" else list(EXCS)
     stores = ["memory", "local"] if tier == "quick" else ["memory", "local", "local_cache2"]
     for sp in programs(tier):
         fns = [f["name"] for f in sp["funcs"]]
